@@ -4,7 +4,9 @@ package redis
 
 import (
 	"fmt"
+	"runtime"
 	"strconv"
+	"sync"
 	"testing"
 
 	"github.com/mgtv-tech/redis-GunYu/pkg/digest"
@@ -218,4 +220,155 @@ func TestVerifC11(t *testing.T) {
 	for i := 0; i < vfutil.Scale(20000, 2000000); i++ {
 		one(vfC11Key(r), "gen")
 	}
+}
+
+// vfC11Concurrent: the property quantifies over keys, not over what else the process is doing: cluster.hash /
+// GetSlot / redis.KeyToSlot / digest.Crc16 are called by every cluster client, syncer and checkpoint writer of the
+// process at once. G goroutines, each on its OWN keys (distinct slots, equal lengths, long - a comparison or a scan of
+// a key takes long enough for another goroutine to get in between), every answer compared with the bitwise oracle;
+// then the same keys once more sequentially (state left behind by the concurrent phase). The budget is a COUNT of
+// calls, never a duration; on code without shared state no schedule can produce a difference.
+// TestVerifC11conc: harness entry C11conc (its own go test run: the thorough tier builds it with -race; the race
+// runtime's reports about repository code become VIOLATION data-race through vfutil.StartRaceLog)
+func TestVerifC11conc(t *testing.T) {
+	s := vfutil.NewSession("C11conc")
+	defer s.Close()
+	r := vfutil.NewRand(vfutil.Seed() ^ 0xc11c)
+	rl := vfutil.StartRaceLog("C11conc")
+	vfC11Concurrent(s, r)
+	rl.Finish(s, func() map[string]interface{} { return map[string]interface{}{"seed": vfutil.Seed()} })
+}
+
+func vfC11Concurrent(s *vfutil.Session, r *vfutil.Rand) {
+	const G = 8
+	type bad struct {
+		fn        string
+		g, call   int
+		key       []byte
+		got, want uint16
+	}
+	// keys: per goroutine 3 keys of one length, different brace shapes, slots pairwise distinct over the whole set
+	shapes := []func(pad, tag []byte) []byte{
+		func(pad, tag []byte) []byte { return append(append([]byte("u:{"), tag...), append([]byte("}:"), pad...)...) },
+		func(pad, tag []byte) []byte { return append(append([]byte("u:{}{"), tag...), append([]byte("}:"), pad...)...) },
+		func(pad, tag []byte) []byte { return append(append(append([]byte{}, pad...), []byte(":}{")...), append(tag, '}', '{', 'x', '}')...) },
+		func(pad, tag []byte) []byte { return append(append([]byte("\xff\xfe{"), pad...), append([]byte("}"), tag...)...) },
+		func(pad, tag []byte) []byte { return append(append([]byte("}{"), tag...), pad...) },
+	}
+	padLen := vfutil.Scale(1500, 6000)
+	var keys [][]byte
+	var want []uint16
+	seenSlot := map[uint16]bool{}
+	for len(keys) < G*3 {
+		pad := r.Bytes(padLen)
+		for i := range pad {
+			if pad[i] == '{' || pad[i] == '}' {
+				pad[i] = 'p'
+			}
+		}
+		tag := []byte(fmt.Sprintf("t%04d", r.Intn(10000)))
+		k := shapes[len(keys)%len(shapes)](pad, tag)
+		w := vfHashSlot(k)
+		if seenSlot[w] {
+			continue
+		}
+		seenSlot[w] = true
+		keys, want = append(keys, k), append(want, w)
+	}
+	for i, k := range keys {
+		s.Op("slot "+vfutil.Hex(k), fmt.Sprintf("%d %d %d", KeyToSlot(string(k)), cluster.VerifHash(string(k)), want[i]))
+		s.Distinct(string(k))
+	}
+	fns := []struct {
+		name string
+		f    func(k []byte) uint16
+	}{
+		{"cluster.GetSlot([]byte)", func(k []byte) uint16 { v, _ := cluster.GetSlot(k); return v }},
+		{"cluster.hash", func(k []byte) uint16 { return cluster.VerifHash(string(k)) }},
+		{"cluster.GetSlot(string)", func(k []byte) uint16 { v, _ := cluster.GetSlot(string(k)); return v }},
+		{"redis.KeyToSlot", func(k []byte) uint16 { return KeyToSlot(string(k)) }},
+	}
+	run := func(phase string, calls int, yield bool) *bad {
+		var mu sync.Mutex
+		var first *bad
+		var wg sync.WaitGroup
+		start := make(chan struct{})
+		for g := 0; g < G; g++ {
+			wg.Add(1)
+			go func(g int) {
+				defer wg.Done()
+				<-start
+				for c := 0; c < calls; c++ {
+					ki := g*3 + (c/4)%3 // the same key four times in a row, then the next of this goroutine's keys
+					fi := (c / 12) % 4
+					got := fns[fi].f(keys[ki])
+					if got != want[ki] {
+						mu.Lock()
+						if first == nil {
+							first = &bad{fns[fi].name, g, c, keys[ki], got, want[ki]}
+						}
+						mu.Unlock()
+						return
+					}
+					if yield {
+						runtime.Gosched()
+					}
+				}
+			}(g)
+		}
+		close(start)
+		wg.Wait()
+		s.Add("concurrent_calls_"+phase, G*calls)
+		return first
+	}
+	report := func(phase string, b *bad) {
+		whose := "no key of the set"
+		for i, w := range want {
+			if w == b.got {
+				whose = fmt.Sprintf("key #%d of the set (goroutine %d)", i, i/3)
+			}
+		}
+		pre := b.key
+		if len(pre) > 48 {
+			pre = pre[:48]
+		}
+		s.Violate("concurrent-slot", fmt.Sprintf("%s phase, goroutine %d call %d: %s(%q... %d bytes) = %d, HASH_SLOT = %d; %d is the slot of %s hashed by another goroutine at the same time: the answer depends on what other callers hash, not only on the key",
+			phase, b.g, b.call, b.fn, pre, len(b.key), b.got, b.want, b.got, whose),
+			map[string]interface{}{"function": b.fn, "key_hex": vfutil.Hex(b.key), "got": b.got, "want": b.want, "goroutines": G, "phase": phase,
+				"concurrent_keys_hex": func() []string {
+					var l []string
+					for _, k := range keys {
+						l = append(l, vfutil.Hex(k[:vfutil.Min(len(k), 32)])+fmt.Sprintf("..%d", len(k)))
+					}
+					return l
+				}()})
+	}
+	old := runtime.GOMAXPROCS(0)
+	if old < 4 {
+		runtime.GOMAXPROCS(4)
+	}
+	b := run("parallel", vfutil.Scale(12000, 120000), false)
+	runtime.GOMAXPROCS(1)
+	b2 := run("yield", vfutil.Scale(1200, 12000), true)
+	runtime.GOMAXPROCS(old)
+	if b != nil {
+		report("parallel", b)
+	} else if b2 != nil {
+		report("yield (GOMAXPROCS=1, Gosched between calls)", b2)
+	}
+	// what the concurrent phase left behind: the same keys, one caller (twice: a memo of the last key answers the second call)
+	for round := 0; round < 2; round++ {
+		for i := len(keys) - 1; i >= 0; i-- {
+			for _, fn := range fns {
+				for rep := 0; rep < 2; rep++ {
+					if got := fn.f(keys[i]); got != want[i] {
+						s.Violate("stale-slot", fmt.Sprintf("after the concurrent phase, ONE caller: %s(key #%d, %d bytes) = %d, HASH_SLOT = %d (state left behind by concurrent callers)", fn.name, i, len(keys[i]), got, want[i]),
+							map[string]interface{}{"function": fn.name, "key_hex": vfutil.Hex(keys[i]), "got": got, "want": want[i]})
+						return
+					}
+				}
+			}
+		}
+	}
+	s.Count("concurrent_ok")
 }
